@@ -2,6 +2,7 @@ package main
 
 import (
 	"sync"
+	"sync/atomic"
 	"encoding/json"
 	"flag"
 	"fmt"
@@ -264,7 +265,7 @@ func checkMain(args []string) int {
 			return
 		}
 		for _, sc := range it.ScriptSliced {
-			r := solvePortfolio(sc, 3, seed)
+			r := solveQuick(sc, 3, seed)
 			if r.Verdict == "unsat" {
 				r.Solver += " (cone of influence)"
 				it.Res = r
@@ -273,14 +274,14 @@ func checkMain(args []string) int {
 		}
 		if sc := it.instScript(); sc != "" {
 			if it.ScriptGround != "" {
-				r := solvePortfolio(it.ScriptGround, 3, seed)
+				r := solveQuick(it.ScriptGround, 3, seed)
 				if r.Verdict == "unsat" {
 					r.Solver += " (skolemised goal, ground instances only)"
 					it.Res = r
 					return
 				}
 			}
-			r := solvePortfolio(sc, 3, seed)
+			r := solveQuick(sc, 3, seed)
 			if r.Verdict == "unsat" {
 				r.Solver += " (skolemised goal, ground instances added)"
 				it.Res = r
@@ -288,23 +289,23 @@ func checkMain(args []string) int {
 			}
 		}
 		if it.ScriptLight != "" {
-			r := solvePortfolio(it.ScriptLight, 3, seed)
+			r := solveQuick(it.ScriptLight, 3, seed)
 			if r.Verdict == "unsat" {
 				it.Res = r
 				return
 			}
 		}
 		if it.ScriptNoLocal != "" {
-			r := solvePortfolio(it.ScriptNoLocal, 3, seed)
+			r := solveQuick(it.ScriptNoLocal, 3, seed)
 			if r.Verdict == "unsat" {
 				it.Res = r
 				return
 			}
 		}
 		if len(it.ScriptCases) == 2 {
-			r1 := solvePortfolio(it.ScriptCases[0], 5, seed)
+			r1 := solveQuick(it.ScriptCases[0], 5, seed)
 			if r1.Verdict == "unsat" {
-				r2 := solvePortfolio(it.ScriptCases[1], 5, seed)
+				r2 := solveQuick(it.ScriptCases[1], 5, seed)
 				if r2.Verdict == "unsat" {
 					r2.Solver += " (case split on a branch condition)"
 					r2.Secs += r1.Secs
@@ -314,6 +315,16 @@ func checkMain(args []string) int {
 			}
 		}
 		it.Res = solvePortfolio(it.Script, secs, seed)
+		if it.Res.Verdict == "unknown" && atomic.LoadInt32(&undecided) >= 4 {
+			// the check fails anyway (several obligations are already undecided after every retry): no long retries
+			atomic.AddInt32(&undecided, 1)
+			return
+		}
+		defer func() {
+			if it.Res.Verdict == "unknown" {
+				atomic.AddInt32(&undecided, 1)
+			}
+		}()
 		if it.Res.Verdict == "unknown" {
 			// undecided is not refuted: one more attempt with other solver seeds and twice the budget, so that solver
 			// variance near the time limit does not turn into an alarm
@@ -525,6 +536,9 @@ func checkMain(args []string) int {
 }
 
 var termMu sync.Mutex
+
+// undecided: obligations that stayed undecided after every retry in this run
+var undecided int32
 
 // instScript: the instantiated script (inst.go), generated on first use. Term construction is not concurrent, so
 // generation during the parallel solving phase is serialised.
